@@ -451,6 +451,15 @@ def run_check(pid: str, tier: str, fn, only=None) -> int:
         return chk.finish()
     except AnalysisError as exc:
         print(f"ANALYSIS-ERROR property={pid}: {exc}")
+        # findings recorded before the analysis broke are self-contained:
+        # report them (exit 1) if any is new, otherwise fail closed (exit 2)
+        known = load_known(pid)
+        if any(f.key() not in known for f in chk.findings):
+            chk.explanation = (chk.explanation or "") + \
+                f" [run incomplete: {exc}]"
+            os.environ["VERIF_NOEVIDENCE"] = os.environ.get(
+                "VERIF_NOEVIDENCE", "") or "partial"
+            return chk.finish()
         return 2
     except Exception:  # noqa: BLE001 - a crash of the analyser is not a violation
         print(f"ANALYSIS-ERROR property={pid}: analyser crashed")
